@@ -5,6 +5,10 @@ From C02 Require Import Model ModelTx ProofsNodes ProofsBorders ProofsIterate Pr
 Import ListNotations.
 Open Scope N_scope.
 
+Section WithMatcher.
+Context {tm : Matcher}.
+
+
 (* ---------------------------------------------------------------- only the IDs of a table matter *)
 Lemma nth_error_map' {A B} (f : A -> B) l : forall n, nth_error (map f l) n = option_map f (nth_error l n).
 Proof. induction l as [|a l IH]; intros [|n]; simpl; auto. Qed.
@@ -185,7 +189,7 @@ Section SearchTx.
     Proof.
       unfold leaf_tx. fold m r.
       set (post := fun t => inverse_lids (t_sorted (get_lids m r (a_tl st t))) inversion lo hi).
-      set (vs := map (fun t => NStatic (post t)) (filter (pat_match p) (a_keys st))).
+      set (vs := map (fun t => NStatic (post t)) (filter (tok_match p) (a_keys st))).
       assert (G : forall t, StronglySorted (kgt m r) (t_sorted (get_lids m r (a_tl st t))) /\
                             forall v, In v (t_sorted (get_lids m r (a_tl st t))) <-> tok_sem c t v).
       { intros t. destruct (get_ok m r (a_tl st t) (tok_sem c t)) as [[S _] I]; [apply (i_tok _ _ HI)| |auto].
@@ -295,3 +299,5 @@ Proof.
   destruct (get_ok _ _ _ _ (i_all _ _ HI) S) as [[S2 _] I2].
   exact (conj S1 (conj I1 (conj S2 I2))).
 Qed.
+
+End WithMatcher.
